@@ -39,6 +39,16 @@ Theorem C12_no_spill_no_temp : forall lim size_lim ps ops s, (forall p, In p ps 
 Proof. exact no_spill_no_temp. Qed.
 Print Assumptions C12_no_spill_no_temp.
 
+(* whether a package is accepted depends on its declared total and UnzipSizeLimit only, never on UnzipXMLSizeLimit; it
+   is monotone in UnzipSizeLimit; an accepted package presents the same parts in the same order under any two XML limits *)
+Theorem C12_accept_independent_of_xml_limit : forall lim lim' size_lim ps,
+  (open_with lim size_lim ps = None <-> open_with lim' size_lim ps = None) /\
+  (forall sl', size_lim <= sl' -> open_with lim size_lim ps <> None -> open_with lim' sl' ps <> None) /\
+  (forall s s', open_with lim size_lim ps = Some s -> open_with lim' size_lim ps = Some s' ->
+                map pl_part (locs s) = map pl_part (locs s')).
+Proof. exact accept_independent_of_xml_limit. Qed.
+Print Assumptions C12_accept_independent_of_xml_limit.
+
 Example C12_ex :
   let ps := [mkPart 1 1 5000; mkPart 1 2 300; mkPart 0 0 700; mkPart 2 0 2000] in
   match open_with 1000 100000 ps with
